@@ -1,4 +1,5 @@
 import DaskModel.Lemmas.Toposort
+import DaskModel.Lemmas.ToposortWalk
 /-!
 # C07 — toposort / getcycle / isdag
 
@@ -139,6 +140,47 @@ theorem isdag_false_cyclic {g : Graph} {keys : List Key} (h : isdag g keys = som
     obtain ⟨h1, h2⟩ := getcycle_is_cycle hc hne
     obtain ⟨k, hk, hp⟩ := h1.path
     exact ⟨k, h2 k hk, hp⟩
+
+
+/-! ### totality: the repaired algorithm always answers -/
+
+/-- **The loops terminate and the cycle walk closes.** On a closed graph (every mentioned key has an entry, keys
+    unique as in a dict, start keys present) `toposort` — with the fuel the driver uses — answers with an order or with
+    a cycle: never `fuel` (non-termination), `stuck` (IndexError/ValueError in the walk) or `keyError`.
+    Together with the theorems above: it returns an order iff no reachable key lies on a cycle. -/
+theorem toposort_total (g : Graph) (keys : List Key) (hcl : Closed g) (hnd : (g.map Prod.fst).Nodup)
+    (hk : ∀ k ∈ keys, (deps? g k).isSome) :
+    (∃ xs, toposort g keys = .ordered xs) ∨ (∃ c, toposort g keys = .cycle c) := by
+  unfold toposort toposortWith
+  have hfuel : totalWeight g + 1 < defaultFuel g keys := by
+    rw [totalWeight_eq g hnd]; unfold defaultFuel; omega
+  have hi0 : Inv2 g { nodes := [], completed := [], seen := [], ordered := [] } :=
+    ⟨by simp, by simp, by simp, by intro a v b h; simp at h, by simp⟩
+  rcases outer_total hcl _ hfuel keys _ hi0 rfl hk with ⟨s', h⟩ | ⟨c, h⟩
+  · rw [h]; exact Or.inl ⟨_, rfl⟩
+  · rw [h]; exact Or.inr ⟨c, rfl⟩
+
+/-- `toposort` raises iff a cycle is reachable (closed graphs) -/
+theorem toposort_raises_iff_cycle (g : Graph) (keys : List Key) (hcl : Closed g) (hnd : (g.map Prod.fst).Nodup)
+    (hk : ∀ k ∈ keys, (deps? g k).isSome) :
+    (∃ c, toposort g keys = .cycle c) ↔ ∃ k, Reach g keys k ∧ Path g k k := by
+  constructor
+  · rintro ⟨c, hc⟩; exact toposort_cycle_reachable_cycle hc
+  · rintro ⟨k, hr, hp⟩
+    rcases toposort_total g keys hcl hnd hk with ⟨xs, hx⟩ | h
+    · exact absurd hp (toposort_ordered_acyclic hx k hr)
+    · exact h
+
+/-- `getcycle` returns `[]` iff no cycle is reachable; `isdag` is its negation -/
+theorem getcycle_nil_iff_acyclic (g : Graph) (keys : List Key) (hcl : Closed g) (hnd : (g.map Prod.fst).Nodup)
+    (hk : ∀ k ∈ keys, (deps? g k).isSome) :
+    getcycle g keys = some [] ↔ ¬ ∃ k, Reach g keys k ∧ Path g k k := by
+  constructor
+  · rintro h ⟨k, hr, hp⟩; exact getcycle_nil_acyclic h k hr hp
+  · intro hno
+    rcases toposort_total g keys hcl hnd hk with ⟨xs, hx⟩ | ⟨c, hc⟩
+    · simp [getcycle, hx]
+    · exact absurd (toposort_cycle_reachable_cycle hc) hno
 
 /-! ### non-vacuity -/
 
